@@ -36,6 +36,9 @@ type c02Req struct {
 	Scripts  map[string][]byte // requested output scripts for staking/binding kinds (key = label)
 	Frozen   uint32
 	Target   []byte
+	// Respell: explicit inputs listed twice are written differently the second time (upper-case hex):
+	// the same output under another spelling of its transaction id
+	Respell bool
 }
 
 func (r *c02Req) String() string {
@@ -44,7 +47,7 @@ func (r *c02Req) String() string {
 		a = append(a, fmt.Sprintf("%s…=%d", k[:12], v))
 	}
 	sort.Strings(a)
-	return fmt.Sprintf("%s amounts{%s} fee=%d lock=%d from=%.12s change=%.12s payload=%dB subfee=%d inputs=%d", r.Kind, strings.Join(a, ","), r.Fee, r.LockTime, r.From, r.Change, len(r.Payload), len(r.SubFee), len(r.Inputs))
+	return fmt.Sprintf("%s amounts{%s} fee=%d lock=%d from=%.12s change=%.12s payload=%dB subfee=%d inputs=%d", r.Kind, strings.Join(a, ","), r.Fee, r.LockTime, r.From, r.Change, len(r.Payload), len(r.SubFee), len(r.Inputs)) + map[bool]string{true: " (duplicate input respelled)", false: ""}[r.Respell]
 }
 
 type c02State struct {
@@ -105,8 +108,14 @@ func (s *c02State) call(t *core.T, r *c02Req) (string, int64, error) {
 		return h, f.IntValue(), err
 	case "manual":
 		var ins []*masswallet.TxIn
+		seenOp := map[wire.OutPoint]bool{}
 		for _, op := range r.Inputs {
-			ins = append(ins, &masswallet.TxIn{TxId: op.Hash.String(), Vout: op.Index})
+			id := op.Hash.String()
+			if r.Respell && seenOp[op] {
+				id = strings.ToUpper(id)
+			}
+			seenOp[op] = true
+			ins = append(ins, &masswallet.TxIn{TxId: id, Vout: op.Index})
 		}
 		sub := map[string]struct{}{}
 		for _, a := range r.SubFee {
@@ -606,6 +615,9 @@ func c02Request(t *core.T, s *c02State, v *sim.View) *c02Req {
 			}
 			if dup && !t.R.Chance(20) {
 				continue
+			}
+			if dup {
+				r.Respell = t.R.Bool()
 			}
 			r.Inputs = append(r.Inputs, o.OP)
 			total += o.Value
